@@ -34,6 +34,10 @@ def ulps(x, k):
     return bf((0x80000000 | -o) if o < 0 else o)
 
 
+# seeds that are always used, in addition to the VERIF_SEED-derived ones, for same-seed pairs, the
+# libstdc++ reference comparison and Naive-vs-Eigen, on every construction path that takes a seed
+BSEEDS = [0, 1, 2 ** 31 - 1, 2 ** 31, 2 ** 32 - 1]
+DEVS = ["N", "E", "NC", "EC"]   # C++ constructors, C API constructors primitivCreate{Naive,Eigen}DeviceWithSeed
 FLT_MAX = bf(0x7f7fffff)
 DEN = bf(1)
 # boundary floats as bit patterns: +-0, denormals, around 1, around FLT_MAX, infinities, quiet /
@@ -161,14 +165,21 @@ def gen_exact(ctx):
             continue
         s = "%s:%d" % (",".join(map(str, dims)) or "-", r.choice([1, 1, 2]) if vol * 2 < 2 ** 32 else 1)
         add("init %s %s 0 %s" % (r.choice(["xu", "xn", "xuc", "xnc"]), fb(r.choice([1.0, 0.5, 3.0, f32(r.random())])), s), "init-xavier-random")
-    # request streams / dropout (oracle draws attached by the reference run, see run())
+    # request streams / dropout (oracle draws attached by the reference run, see run()):
+    # every boundary seed on every construction path and API, then derived seeds
+    for seed in BSEEDS:
+        for dev in DEVS:
+            for api in "TND":
+                reqs = ";".join(gen_req(r, quick) for _ in range(r.randint(2, 6))) + ";u:%s:%s:8;n:%s:%s:5;b:%s:8" % (fb(0.0), fb(1.0), fb(0.0), fb(1.0), fb(0.5))
+                add("mkstream %s %s %d %s" % (dev, api, seed, reqs), "stream-boundary-seed")
     for _ in range(700 if quick else 12000):
         reqs = ";".join(gen_req(r, quick) for _ in range(r.randint(1, 8)))
-        add("mkstream %s %s %d %s" % (r.choice("NE"), r.choice("TND"), r.getrandbits(32), reqs), "stream")
-    for _ in range(500 if quick else 8000):
+        add("mkstream %s %s %d %s" % (r.choice(DEVS), r.choice("TND"), r.getrandbits(32), reqs), "stream")
+    for i in range(500 if quick else 8000):
         rate = r.choice([0.0, 0.5, 0.3, 0.9, 1.0, ulps(1.0, -1), 1e-30, DEN, -0.0, -0.5, 1.5, 2.0, ulps(1.0, 1), f32(r.random())])
         xs = [r.choice([0.0, -0.0, 1.0, -2.0, 3.0, INF, -INF, FLT_MAX, DEN, 1e-30, f32(r.uniform(-100, 100)), f32(r.uniform(-100, 100))]) for _ in range(r.randint(1, 12))]
-        add("mkdropout %s %s %d %s %d %s" % (r.choice("NE"), r.choice("TN"), r.getrandbits(32), fb(rate), r.choice([1, 1, 1, 0]), ",".join(fb(x) for x in xs)), "dropout")
+        seed = BSEEDS[i % len(BSEEDS)] if i < 4 * len(BSEEDS) else r.getrandbits(32)
+        add("mkdropout %s %s %d %s %d %s" % (DEVS[i % 4] if i < 4 * len(BSEEDS) else r.choice(DEVS), r.choice("TN"), seed, fb(rate), r.choice([1, 1, 1, 0]), ",".join(fb(x) for x in xs)), "dropout")
     return cases, dist
 
 
@@ -284,12 +295,21 @@ def gen_impl_only(ctx):
                 rng_cases.append("range %s %s %d n:%s:%s:%d" % (dev, api, seed, fb(mean), fb(sd), n))
             for mean, sd in ((0.0, 1.0), (3.0, 0.5), (0.0, DEN), (-5.0, 2.0), (5.0, 2.0), (-30.0, 3.0)):
                 rng_cases.append("range %s %s %d l:%s:%s:%d" % (dev, api, seed, fb(mean), fb(sd), n))
-    for _ in range(20 if quick else 200):
-        seed = r.getrandbits(32)
-        reqs = ";".join(gen_req(r, quick).replace("!", "") for _ in range(r.randint(2, 9))) + ";u:%s:%s:16" % (fb(0.0), fb(1.0))
-        for pair in ("N N", "E E", "N E"):
-            rep_cases.append(("same", "replay %s %d %d %s" % (pair, seed, seed, reqs)))
-        rep_cases.append(("diff", "replay %s %s %d %d %s" % (r.choice("NE"), r.choice("NE"), seed, seed ^ (1 << r.randrange(32)), reqs)))
+    PAIRS = ("N N", "E E", "N E", "NC N", "EC E", "NC EC", "NC NC", "EC EC")
+    seeds = BSEEDS + [r.getrandbits(32) for _ in range(12 if quick else 150)]
+    for seed in seeds:
+        reqs = ";".join(gen_req(r, quick).replace("!", "") for _ in range(r.randint(2, 9))) + ";u:%s:%s:16;n:%s:%s:9;b:%s:16" % (fb(0.0), fb(1.0), fb(0.0), fb(1.0), fb(0.5))
+        for pair in PAIRS:
+            rep_cases.append(("same", "replay %s %d %d %s %d" % (pair, seed, seed, reqs, r.randint(0, 5))))
+        for other in (seed ^ (1 << r.randrange(32)), (seed + 1) % 2 ** 32):
+            rep_cases.append(("diff", "replay %s %s %d %d %s" % (r.choice(DEVS), r.choice(DEVS), seed, other, reqs)))
+    # composite functions on same-seed pairs, result buffers at shifted malloc alignments
+    for seed in BSEEDS + [r.getrandbits(32) for _ in range(3 if quick else 20)]:
+        for n in (7, 100, 1000, 5000):
+            for pad in (0, 1, 2, 3):
+                g = "g:%s:%s:%d;g:%s:%s:%d" % (fb(0.0), fb(1.0), n, fb(r.uniform(-3, 3)), fb(r.uniform(0.1, 4)), n + 3)
+                rep_cases.append(("same", "replay N N %d %d %s %d" % (seed, seed, g, pad)))
+                rep_cases.append(("same-eigen-composite", "replay %s %s %d %d %s %d" % (r.choice(["E", "EC"]), r.choice(["E", "EC"]), seed, seed, g, pad)))
     for dev in "NE":
         for _ in range(2 if quick else 8):
             seed = r.getrandbits(32)
@@ -415,7 +435,7 @@ def run(ctx):
     ctx.level = "proof"
     res = ctx.prove()
     model = pv.build_ocaml("random")
-    impl = pv.build_harness("plain", "rand_drv")
+    impl = pv.build_harness("plain", "rand_drv", extra="-lprimitiv_c")
     r, quick = ctx.rng, ctx.quick()
 
     # ---- A. model vs implementation, exact --------------------------------------------------
@@ -426,8 +446,8 @@ def run(ctx):
 
     # ---- B. gumbel (libm logf vs double log: compared with a tolerance) ---------------------
     gcs = []
-    for _ in range(200 if quick else 3000):
-        gcs.append("mkgumbel %s %s %d %s %s %d" % (r.choice("NE"), r.choice("TN"), r.getrandbits(32),
+    for i in range(200 if quick else 3000):
+        gcs.append("mkgumbel %s %s %d %s %s %d" % (DEVS[i % 4] if i < 20 else r.choice(DEVS), r.choice("TN"), BSEEDS[i // 4] if i < 20 else r.getrandbits(32),
                    fb(r.choice([0.0, 1.0, -3.0, f32(r.uniform(-5, 5))])), fb(r.choice([1.0, 0.5, 2.0, 0.0, -1.0, f32(r.uniform(0, 5))])), r.choice([1, 4, 16, 40])))
     gcs = attach_oracle(impl, gcs)
     _, go1 = pv.run_lines(impl, gcs)
@@ -469,12 +489,28 @@ def run(ctx):
     ctx.cov["range_checks"] = {"requests": len(rng_cases), "elements_checked": elems,
                                "what": "every element: bernoulli in {0,1} (all 0 at p=0, all 1 at p=1); uniform in (lower, upper] (== upper when lower == upper); normal finite; log_normal finite and > 0"}
     _, o = pv.run_lines(impl, [c for _, c in rep_cases], timeout=600)
+    lastbit = 0
     for (want, c), x in zip(rep_cases, o + ["<no output>"] * (len(rep_cases) - len(o))):
         if want == "same" and not x.startswith("equal"):
             impl_fail("replay", c, x, ["two devices with the same seed and the same request sequence delivered different values"])
         if want == "diff" and not x.startswith("differ"):
             impl_fail("replay", c, x, ["two devices with different seeds delivered identical values: the seed is not used"])
-    ctx.cov["replay_checks"] = {"pairs": len(rep_cases), "what": "same seed => bit-identical replies (Naive/Naive, Eigen/Eigen, Naive/Eigen; second device uses Tensor/Node/Device API in turn); seeds differing in one bit => different replies"}
+        if want == "same-eigen-composite" and not x.startswith("equal"):
+            d = parse_kv(x)
+            scale = max([1.0] + [abs(bf(q.split(":")[1])) + 20 * abs(bf(q.split(":")[2])) for q in c.split()[5].split(";") if q.startswith("g:")])
+            if x.startswith("differ") and d.get("maxabs", 1e300) <= 1e-5 * scale and "reject-or-size" not in x:
+                # two same-seed Eigen devices, identical requests: gumbel differs in the last bits
+                # (Eigen evaluates log() with packet or scalar code depending on buffer alignment)
+                lastbit += 1
+                if lastbit == 1:
+                    ctx.violation("eigen-last-bit", {"kind": "implementation-check", "case": c, "impl": x,
+                                                     "why": "two devices::Eigen with the same seed and the same request sequence delivered gumbel values that differ in the last bit",
+                                                     "witness": "random-C17 :: eigen-same-seed-last-bit", "impl_driver": impl}, True,
+                                  "`%s` -> %s" % (c, x))
+            else:
+                impl_fail("replay", c, x, ["two Eigen devices with the same seed and the same request sequence delivered different values"])
+    ctx.cov["replay_checks"] = {"pairs": len(rep_cases), "boundary_seeds": BSEEDS, "eigen_gumbel_last_bit_differences": lastbit,
+                                "what": "same seed => bit-identical replies for the pairs Naive/Naive, Eigen/Eigen, Naive/Eigen and the C API constructors primitivCreate{Naive,Eigen}DeviceWithSeed against the C++ constructors and each other (second device uses Tensor/Node/Device API in turn, small heap blocks allocated in between shift the malloc alignment of its buffers); seeds differing in one bit or by one => different replies; gumbel on same-seed pairs with shifted alignment"}
     _, o = pv.run_lines(impl, [c for _, c in init_cases], timeout=600)
     for (want, c), x in zip(init_cases, o + ["<no output>"] * (len(init_cases) - len(o))):
         why = initval_verdict(want, c, x)
@@ -517,11 +553,12 @@ def run(ctx):
     ctx.cov["finding_probes"] = obs
     ctx.cov["notes"] = ["compile-time only, not a finding: basic_functions.h declares random::log_normal<Var>(shape, mean, sd, Device &dev) with a reference (bernoulli/uniform/normal take Device *); the generic bodies log_normal<Var>(shape, mean, sd, &dev) and log_normal<Var>(shape, mean, sd) (nullptr to a Device &) cannot be instantiated, so log_normal with the default device does not compile",
                         "XavierUniform with scale < 0 requests uniform(bound, -bound) with upper < lower and is rejected; scale = 0 requests uniform(-0, 0) (all zeros); XavierNormal with scale <= 0 is rejected (sd <= 0)",
-                        "Identity on a batched square shape replaces the tensor by a batch-1 identity matrix"]
+                        "Identity on a batched square shape replaces the tensor by a batch-1 identity matrix",
+                        "cross-backend equality Naive(seed) == Eigen(seed) == std::mt19937(seed)+libstdc++ is checked and holds for the builds of tools/build_impl.sh (-O1); with upstream's -O3 -march=native on devices/eigen/ops/*.cc g++ contracts libstdc++'s u*(b-a)+a into an FMA and Eigen's uniform values differ from Naive's by up to 1 ulp (each backend stays self-consistent; not required by C17)"]
 
     # ---- sanitizer run (thorough) -------------------------------------------------------------
     if not quick:
-        impl2 = pv.build_harness("asan", "rand_drv")
+        impl2 = pv.build_harness("asan", "rand_drv", extra="-lprimitiv_c")
         sub = cases[:: max(1, len(cases) // 40000)]
         pv.correspondence(ctx, "random-asan", sub, impl2, model, functional=False, oracle=val_oracle,
                           impl_env={"ASAN_OPTIONS": "detect_leaks=0"})
